@@ -7,6 +7,7 @@ CONSTANTS
   UseMerge = FALSE
   UseSnap = FALSE
   UseDup = FALSE
+  DupElems = FALSE
   BeyondLen = 0
   Reps <- MCReps
   Actors <- MCActors
